@@ -244,9 +244,16 @@ def gen_cases(tier, seed):
     # units as an input class: the same law with variables measured in other units (centimetres, kilometres per hour,
     # millimetres): values above 100 and below 1e-2 - an absolute constant in the code shows up here
     urng = np.random.default_rng([seed, 6, 77])
-    for k, cse in enumerate(cases):
-        if k % 3 == 1 and cse["op"] in ("pdf", "cdf", "marginal", "marginal-icdf", "total-mass", "marginal-pdf-3d"):
-            cse["units"] = [float(urng.choice([1e-3, 1e-2, 1.0, 1e2, 1e3])) for _ in cse["spec"]["dims"]]
+    cyc = [[1e2, 1.0, 1e3], [1.0, 1e3, 1e-2], [1e3, 1e2, 1.0], [1e-3, 1.0, 1e-2], [1e-2, 1e-3, 1e2]]
+    seen = {}
+    for cse in cases:
+        op = cse["op"]
+        if op not in ("pdf", "cdf", "marginal", "marginal-icdf", "total-mass", "marginal-pdf-3d"):
+            continue
+        k = seen.get(op, 0)
+        seen[op] = k + 1
+        if k % 2 == 1:  # every second case of every operation, cycling through large and small units
+            cse["units"] = cyc[(k // 2 + int(urng.integers(1))) % len(cyc)][: len(cse["spec"]["dims"])]
     return cases
 
 
